@@ -151,16 +151,25 @@ func runOne(prop *Property, cfg Config, rep *Report) {
 				sub2 := rep.child()
 				runRules(prop, np, sub2)
 				f2 := sub2.failingRules()
-				var rescued []string
+				var rescued, refined []string
 				for rule := range failing {
 					if !f2[rule] {
 						rescued = append(rescued, rule)
+					} else {
+						// the rule fails on both forms: the obligations of the normal form are the accurate ones
+						// (an obligation that fails only because of the helper must not be reported next to the real one)
+						refined = append(refined, rule)
 					}
 				}
 				sort.Strings(rescued)
+				sort.Strings(refined)
 				if len(rescued) > 0 {
 					sub.replaceRules(rescued, sub2)
 					rep.Note(fmt.Sprintf("%s under %s: rule(s) %s discharged on the normal form with new helper(s) inlined: %s", prop.ID, cfg, strings.Join(rescued, ","), strings.Join(names, ", ")))
+				}
+				if len(refined) > 0 {
+					sub.replaceRules(refined, sub2)
+					rep.Note(fmt.Sprintf("%s under %s: rule(s) %s fail on both forms; reported as evaluated on the normal form (helpers inlined: %s)", prop.ID, cfg, strings.Join(refined, ","), strings.Join(names, ", ")))
 				}
 			} else {
 				rep.Note("normal form did not load (kept the verdict on the original form): " + truncate(lerr.Error(), 200))
